@@ -35,6 +35,10 @@ pub enum AOp {
     /// gives a handle back the way FFI code does: `into_raw`, then `decrement_strong_count` on the pointer (reads the payload
     /// first, like Drop: the hb witness for the final drop)
     RawDrop,
+    /// `strong_count` of the handle all threads share BY REFERENCE (programs with `shared`)
+    CountShared,
+    /// clone the shared handle (the new handle is owned by this thread)
+    CloneShared,
 }
 
 #[derive(Clone, Debug, PartialEq, Eq, Hash, Serialize, Deserialize)]
@@ -46,11 +50,15 @@ pub struct AProg {
     /// drops it on its way out, and its destructor is the first user of a thread-local that owns tracked objects
     #[serde(default)]
     pub detached: bool,
+    /// one more handle exists that no thread owns: all threads reach it through a reference (an `Arc` field of a shared
+    /// structure); main drops it after it has joined every child
+    #[serde(default)]
+    pub shared: bool,
 }
 
 impl AProg {
     pub fn s(&self) -> String {
-        format!("{}{}{}", if self.panic_in_drop { "[payload drop panics] " } else { "" }, if self.detached { "[detached children, return value's destructor initialises a thread-local] " } else { "" }, self.threads.iter().map(|t| t.iter().map(|o| format!("{:?}", o)).collect::<Vec<_>>().join("; ")).collect::<Vec<_>>().join("  ||  "))
+        format!("{}{}{}", if self.panic_in_drop { "[payload drop panics] " } else { "" }, if self.detached { "[detached children, return value's destructor initialises a thread-local] " } else if self.shared { "[one more handle shared by reference, dropped by main after the joins] " } else { "" }, self.threads.iter().map(|t| t.iter().map(|o| format!("{:?}", o)).collect::<Vec<_>>().join("; ")).collect::<Vec<_>>().join("  ||  "))
     }
     pub fn hash(&self) -> u64 {
         fnv(&self.s())
@@ -78,11 +86,13 @@ struct St {
     leak_alloc: bool,
     track_live: Vec<bool>,
     finished: Vec<bool>,
+    /// the handle shared by reference is alive
+    g: bool,
 }
 
 fn init(p: &AProg) -> St {
     let n = p.threads.len();
-    St { pc: vec![0; n], handles: vec![1; n], count: n as i32, flag: 0, res: vec![vec![]; n], payload_drops: 0, payload_forgotten: false, leak_alloc: false, track_live: vec![true; n], finished: vec![false; n] }
+    St { g: p.shared, pc: vec![0; n], handles: vec![1; n], count: n as i32 + p.shared as i32, flag: 0, res: vec![vec![]; n], payload_drops: 0, payload_forgotten: false, leak_alloc: false, track_live: vec![true; n], finished: vec![false; n] }
 }
 
 /// One step of thread t (each op is atomic; the end of a thread drops its remaining handles one by one and its Track value).
@@ -108,6 +118,18 @@ fn step_obs(p: &AProg, s: &St, t: usize, flag_seen: Option<u8>) -> Option<(St, O
             }
             return Some((ns, None));
         }
+        if t == 0 && s.g {
+            // main drops the shared handle after it has joined every child
+            if !(1..p.threads.len()).all(|u| s.finished[u]) {
+                return None;
+            }
+            ns.g = false;
+            ns.count -= 1;
+            if ns.count == 0 {
+                ns.payload_drops += 1;
+            }
+            return Some((ns, None));
+        }
         ns.track_live[t] = false;
         ns.finished[t] = true;
         return Some((ns, None));
@@ -125,7 +147,11 @@ fn step_obs(p: &AProg, s: &St, t: usize, flag_seen: Option<u8>) -> Option<(St, O
                 ns.payload_drops += 1;
             }
         }
-        AOp::Count => res = Some(s.count as i64),
+        AOp::Count | AOp::CountShared => res = Some(s.count as i64),
+        AOp::CloneShared => {
+            ns.handles[t] += 1;
+            ns.count += 1;
+        }
         AOp::GetMut => res = Some((s.count == 1) as i64),
         AOp::TryUnwrap => {
             if s.count == 1 {
@@ -284,6 +310,8 @@ pub fn gen(rng: &mut Rng, leaks: bool, panic_in_drop: bool, tier: u8) -> AProg {
         _ => 7,
     };
     let per_thread = if tier == 0 && t == 3 { 2 } else { 3 };
+    let detached = rng.chance(1, 6);
+    let shared = !detached && rng.chance(1, 5);
     for _ in 0..t {
         let len = (1 + rng.below(per_thread)).min(budget.max(1));
         budget = budget.saturating_sub(len);
@@ -295,6 +323,14 @@ pub fn gen(rng: &mut Rng, leaks: bool, panic_in_drop: bool, tier: u8) -> AProg {
             for _try in 0..20 {
                 let c = rng.below(if leaks { 16 } else { 10 });
                 let last = k + 1 == len;
+                if shared && rng.chance(1, 3) {
+                    let op = if rng.chance(1, 2) { CountShared } else { CloneShared };
+                    if op == CloneShared {
+                        held += 1;
+                    }
+                    ops.push(op);
+                    break;
+                }
                 let op = match c {
                     0 => Clone,
                     1 | 2 => {
@@ -355,12 +391,12 @@ pub fn gen(rng: &mut Rng, leaks: bool, panic_in_drop: bool, tier: u8) -> AProg {
                     }
                     _ => AllocLeak,
                 };
-                let needs_handle = !matches!(op, SetFlag | TrackDrop | TrackDropInUnwind | TrackForget | AllocDealloc | AllocDeallocInUnwind | AllocLeak);
+                let needs_handle = !matches!(op, CountShared | CloneShared | SetFlag | TrackDrop | TrackDropInUnwind | TrackForget | AllocDealloc | AllocDeallocInUnwind | AllocLeak);
                 if needs_handle && held == 0 {
                     continue;
                 }
                 match op {
-                    Clone => held += 1,
+                    Clone | CloneShared => held += 1,
                     Drop | RawDrop | Forget | DropOrForgetIfFlag => {
                         // keep the handle used by a pending Inc alive
                         if incs > 0 && held == 1 {
@@ -382,7 +418,7 @@ pub fn gen(rng: &mut Rng, leaks: bool, panic_in_drop: bool, tier: u8) -> AProg {
         }
         threads.push(ops);
     }
-    AProg { threads, panic_in_drop, detached: rng.chance(1, 6) }
+    AProg { threads, panic_in_drop, detached, shared }
 }
 
 /// all 2-thread programs with <= k handle ops per thread over the core alphabet
@@ -436,7 +472,7 @@ pub fn enumerate(k: usize) -> Vec<AProg> {
     for a in &ls {
         for b in &ls {
             if !b.is_empty() {
-                v.push(AProg { threads: vec![a.clone(), b.clone()], panic_in_drop: false, detached: false });
+                v.push(AProg { threads: vec![a.clone(), b.clone()], panic_in_drop: false, detached: false, shared: false });
             }
         }
     }
@@ -489,7 +525,7 @@ struct Iter {
     res: Vec<Vec<i64>>,
 }
 
-fn exec(p: &AProg, t: usize, first: loom::sync::Arc<Payload>, track: loom::alloc::Track<u32>, flag: &loom::sync::atomic::AtomicUsize, it: &SM<Iter>) {
+fn exec(p: &AProg, t: usize, first: loom::sync::Arc<Payload>, track: loom::alloc::Track<u32>, flag: &loom::sync::atomic::AtomicUsize, it: &SM<Iter>, g: &Option<SArc<loom::sync::Arc<Payload>>>) {
     use loom::sync::Arc;
     let mut hs: Vec<Arc<Payload>> = vec![first];
     let mut track = Some(track);
@@ -512,6 +548,8 @@ fn exec(p: &AProg, t: usize, first: loom::sync::Arc<Payload>, track: loom::alloc
                 unsafe { Arc::decrement_strong_count(raw) };
             }
             AOp::Count => res = Arc::strong_count(hs.last().unwrap()) as i64,
+            AOp::CountShared => res = Arc::strong_count(&**g.as_ref().unwrap()) as i64,
+            AOp::CloneShared => hs.push(Arc::clone(&**g.as_ref().unwrap())),
             AOp::GetMut => {
                 // a successful get_mut hands out `&mut`: write through it (the earlier owners' reads — every Drop reads the
                 // payload first — must happen-before it)
@@ -685,24 +723,26 @@ pub fn run_loom(p: &AProg, iter_cap: usize) -> ARun {
             let a = loom::sync::Arc::new(Payload { _owned: loom::alloc::Track::new(0), cell: loom::cell::UnsafeCell::new(1), drops: d3.clone(), panic_in_drop: p2.panic_in_drop });
             // every handle and tracked value a child owns is created before the first spawn
             let clones: Vec<_> = (1..n).map(|_| a.clone()).collect();
+            let g: Option<SArc<loom::sync::Arc<Payload>>> = if p2.shared { Some(SArc::new(a.clone())) } else { None };
             let tracks: Vec<_> = (0..n).map(|i| loom::alloc::Track::new(i as u32)).collect();
             let mut tracks = tracks.into_iter();
             let t0 = tracks.next().unwrap();
             let mut hs = Vec::new();
             for ((t, c), tr) in (1..n).zip(clones).zip(tracks) {
-                let (p3, f3, it4) = (p2.clone(), flag.clone(), it3.clone());
+                let (p3, f3, it4, g2) = (p2.clone(), flag.clone(), it3.clone(), g.clone());
                 hs.push(loom::thread::spawn(move || {
-                    exec(&p3, t, c, tr, &f3, &it4);
+                    exec(&p3, t, c, tr, &f3, &it4, &g2);
                     RetGuard(p3.detached)
                 }));
             }
             if p2.detached {
                 hs.clear();
             }
-            exec(&p2, 0, a, t0, &flag, &it3);
+            exec(&p2, 0, a, t0, &flag, &it3, &g);
             for h in hs {
                 h.join().unwrap();
             }
+            drop(g);
         });
     }));
     loom::verif::set_iteration_hook(None);
@@ -729,7 +769,7 @@ fn core(tier: u8) -> &'static Vec<AProg> {
     let build = |k: usize| {
         use AOp::*;
         let mut v = enumerate(k);
-        let ap = |threads: Vec<Vec<AOp>>| AProg { threads, panic_in_drop: false, detached: false };
+        let ap = |threads: Vec<Vec<AOp>>| AProg { threads, panic_in_drop: false, detached: false, shared: false };
         v.push(ap(vec![vec![Count, Drop], vec![Drop]]));
         v.push(ap(vec![vec![TryUnwrap], vec![Drop]]));
         v.push(ap(vec![vec![TryUnwrap], vec![TryUnwrap]]));
@@ -748,6 +788,11 @@ fn core(tier: u8) -> &'static Vec<AProg> {
         v.push(ap(vec![vec![Clone, RawDrop, Count], vec![Count, RawDrop]]));
         v.push(ap(vec![vec![RawDrop], vec![Clone, Drop, Count, Drop]]));
         v.push(ap(vec![vec![RawDrop], vec![Drop], vec![RawDrop]]));
+        // one handle reached by reference from every thread (an `Arc` field of a shared structure): inspections and clones
+        // of it from different threads are dependent operations, also when it is the only handle left
+        for th in [vec![vec![Drop, CountShared], vec![Drop, CloneShared, Drop]], vec![vec![Drop, CountShared], vec![Drop, CloneShared]], vec![vec![Drop, CountShared, CountShared], vec![Drop, CloneShared, Drop]], vec![vec![Drop, CloneShared, Count, Drop], vec![Drop, CountShared]], vec![vec![CountShared], vec![CloneShared, Drop]], vec![vec![Drop, CountShared], vec![Drop, CloneShared, Drop], vec![Drop, CloneShared, Drop]]] {
+            v.push(AProg { threads: th, panic_in_drop: false, detached: false, shared: true });
+        }
         v.push(ap(vec![vec![TrackForget], vec![TrackDrop]]));
         v.push(ap(vec![vec![AllocLeak], vec![AllocDealloc]]));
         // released while the thread unwinds from a panic the program catches itself: not a leak
@@ -761,10 +806,10 @@ fn core(tier: u8) -> &'static Vec<AProg> {
         // detached children whose unclaimed return value is the first user of a thread-local owning tracked objects: the
         // thread destroys it before it is done, nothing leaks
         for th in [vec![vec![Drop], vec![Drop]], vec![vec![Count], vec![Clone, Drop], vec![Drop]], vec![vec![], vec![TrackDrop]], vec![vec![TryUnwrap], vec![Count]]] {
-            v.push(AProg { threads: th, panic_in_drop: false, detached: true });
+            v.push(AProg { threads: th, panic_in_drop: false, detached: true, shared: false });
         }
-        v.push(AProg { threads: vec![vec![Drop], vec![Drop]], panic_in_drop: true, detached: false });
-        v.push(AProg { threads: vec![vec![Count], vec![Clone, Drop]], panic_in_drop: true, detached: false });
+        v.push(AProg { threads: vec![vec![Drop], vec![Drop]], panic_in_drop: true, detached: false, shared: false });
+        v.push(AProg { threads: vec![vec![Count], vec![Clone, Drop]], panic_in_drop: true, detached: false, shared: false });
         v
     };
     if tier == 0 {
